@@ -26,6 +26,7 @@ type inboxCase struct {
 	Keep     int     `json:"keep"`
 	Seed     int64   `json:"seed"`
 	Choices  []int   `json:"choices"`
+	Idle     *int32  `json:"idle"` // value of the idle state in actor/inbox.go (default 2)
 }
 
 type inboxObs struct {
@@ -168,7 +169,11 @@ func inboxBad(c inboxCase) func(any) bool {
 		if pill {
 			return int64(len(ob.Delivered)+len(ob.Dropped))+ob.QLen != int64(len(ob.Pushed))
 		}
-		return ob.Status != 2 || ob.QLen != 0 || len(ob.Delivered) != total || fmt.Sprint(ob.Delivered) != fmt.Sprint(ob.Pushed)
+		idle := int32(2)
+		if c.Idle != nil {
+			idle = *c.Idle
+		}
+		return ob.Status != idle || ob.QLen != 0 || len(ob.Delivered) != total || fmt.Sprint(ob.Delivered) != fmt.Sprint(ob.Pushed)
 	}
 }
 
